@@ -165,7 +165,37 @@ func collect(dir string) []mut {
 				} else {
 					add(x.TokPos, 2, "++", "incdec")
 				}
+			case *ast.BlockStmt:
+				// swap two adjacent simple statements; duplicate a call statement
+				simple := func(st ast.Stmt) bool {
+					switch st.(type) {
+					case *ast.ExprStmt, *ast.AssignStmt, *ast.IncDecStmt:
+						return true
+					}
+					return false
+				}
+				for k := 0; k+1 < len(x.List); k++ {
+					if simple(x.List[k]) && simple(x.List[k+1]) {
+						a0, a1 := fset.Position(x.List[k].Pos()).Offset, fset.Position(x.List[k].End()).Offset
+						b0, b1 := fset.Position(x.List[k+1].Pos()).Offset, fset.Position(x.List[k+1].End()).Offset
+						out = append(out, mut{file: rel, off: a0, end: b1, repl: string(src[b0:b1]) + string(src[a1:b0]) + string(src[a0:a1]), kind: "stmt-swap", old: string(src[a0:b1]), line: fset.Position(x.List[k].Pos()).Line})
+					}
+				}
+				for _, st := range x.List {
+					if es, ok := st.(*ast.ExprStmt); ok {
+						if _, isCall := es.X.(*ast.CallExpr); isCall {
+							a0, a1 := fset.Position(es.Pos()).Offset, fset.Position(es.End()).Offset
+							out = append(out, mut{file: rel, off: a0, end: a1, repl: string(src[a0:a1]) + "; " + string(src[a0:a1]), kind: "dup-call", old: string(src[a0:a1]), line: fset.Position(es.Pos()).Line})
+						}
+					}
+				}
 			case *ast.IfStmt:
+				if x.Else != nil {
+					if eb, ok := x.Else.(*ast.BlockStmt); ok && len(eb.List) > 0 {
+						b0, b1 := fset.Position(eb.Lbrace).Offset, fset.Position(eb.Rbrace).Offset
+						out = append(out, mut{file: rel, off: b0, end: b1 + 1, repl: "{}", kind: "empty-else", old: string(src[b0 : b1+1]), line: fset.Position(eb.Pos()).Line})
+					}
+				}
 				// negate the whole condition
 				if x.Else == nil && len(x.Body.List) > 0 {
 					b0, b1 := fset.Position(x.Body.Lbrace).Offset, fset.Position(x.Body.Rbrace).Offset
